@@ -40,11 +40,12 @@ SPEC = {
   ],
   'assumptions': [
     'partial: derivatives themselves are JAX\'s; exact comparison only for polynomial integer-valued programs (|values| < 2^24 in float32)',
-    'single-scope modules (multi_scope=False): no Module or Variable passed as attribute or argument',
+    'the Lean model is single-scope; nn.vjp over several scopes (multi_scope=True, a module holding a module bound outside of it) is checked against jax.vjp of module.apply by the implementation oracle only',
     'bodies draw no rngs',
     'second-order agreement (the nn.vjp / nn.jvp / nn.value_and_grad results differentiated again by an outer jax.grad w.r.t. every variable collection and input) is tied by correspondence only: the model has no derivative of a derivative (A-AD)',
   ],
   'model_partial': [
+    'multi-scope lifting (scope trees with several scopes: _dedup_scopes/_dup_scopes/_transpose) is not in the Lean model; nn.vjp(multi_scope=True) is tied by the implementation oracle only',
     'A-AD (automatic differentiation is an abstract structure): the theorems establish what is differentiated, not the derivative; the numbers are tied by the three-voice exact comparison only',
   ],
 }
@@ -444,6 +445,11 @@ def check_case(ctx, drv, case):
   if cov and 'error' not in li and kind in ('vjp', 'jvp', 'vag') and case.get('outer_grad'):
     check_outer_grad(ctx, case, lctx)
   ctx.count('writes', 'yes' if lp.fn_wcols(case['fn']) else 'no')
+  if kind == 'jvp':
+    # candidate finding jvp-in-only-collection-frozen-container: such a collection reaches jax.jvp as a FrozenDict, a plain-dict
+    # tangent is rejected (TypeError); the harness passes the tangent in the matching container and counts the occurrences
+    need = any(coll and c in case['view'] and not lp.in_filter_json(case['variables'], c) for c, coll in case['vt'].items())
+    ctx.count('jvp_tangent_container', 'frozen-needed' if need else 'plain')
   where = json.dumps(case)[:700]
 
   # ---- property oracle: equals JAX autodiff of the pure apply function -------------------------------
@@ -629,6 +635,131 @@ def check_outer_grad(ctx, case, lifted_ctx):
 
 
 # ------------------------------------------------------------------------------------------------
+# several scopes: a module that holds another bound module as an attribute (nn.vjp(..., multi_scope=True))
+# ------------------------------------------------------------------------------------------------
+
+
+def check_multiscope_case(ctx, case):
+  """`lift.vjp` over a scope tree with two scopes (`_dedup_scopes`, `_transpose`, `_bwd_wrapper`'s unflatten): the
+  differentiated module `pair` uses a module `other` bound outside of it.  Oracle only (the Lean model is single-scope):
+  primal, one variable cotangent dict per scope (in `get_module_scopes` order: attribute scopes, then the module's own),
+  input cotangent, publish-once — against jax.vjp of the plain module's apply."""
+  k, ct = case['k'], F(case['ct'])
+  VJ = lp.lf_python(case['vjp_variables'])
+
+  class Leaf(nn.Module):
+    @nn.compact
+    def __call__(self, x):
+      w = self.param('w', lambda key: F(1))
+      c = self.variable('consts', 'c', lambda: F(1))
+      n = self.variable('stats', 'n', lambda: F(0))
+      if self.is_mutable_collection('stats'):
+        n.value = n.value + 1
+      return w * x + c.value * k + n.value * w
+
+  class Pair(nn.Module):
+    other: nn.Module
+
+    @nn.compact
+    def __call__(self, x):
+      v = self.param('v', lambda key: F(1))
+      return v * x * x + self.other(x) * v
+
+  def lifted(self, x):
+    pair = Pair(Leaf(name='other'), name='pair')
+    y, bwd = nn.vjp(lambda m, x: m(x), pair, x, vjp_variables=VJ, multi_scope=case['multi_scope'])
+    g = bwd(ct)
+    return y, g[0], g[1]
+
+  def plain(self, x):
+    return Pair(Leaf(name='other'), name='pair')(x)
+
+  L, P = make_cls('MSL', lifted), make_cls('MSP', plain)
+  vs = {'params': {'other': {'w': F(case['w'])}, 'pair': {'v': F(case['v'])}}, 'consts': {'other': {'c': F(case['c'])}}, 'stats': {'other': {'n': F(case['n'])}}}
+  mut = lp.lf_python(case['mutable'])
+  x = F(case['x'])
+  li = lp.call(lambda: apply_mod(L, vs, (x,), case['mutable']))
+  sel = {c: vs[c] for c in vs if lp.in_filter_json(case['vjp_variables'], c)}
+
+  def pure(vsel, x):
+    full = dict(vs)
+    full.update(vsel)
+    y, upd = apply_mod(P, full, (x,), case['mutable'])
+    return y, upd
+
+  def ref_thunk():
+    y, bwd, upd = jax.vjp(pure, sel, x, has_aux=True)
+    g = bwd(ct)
+    return y, g[0], g[1], upd
+
+  ref = lp.call(ref_thunk)
+  ctx.case(case)
+  ctx.count('transform', 'vjp/multi_scope' if case['multi_scope'] else 'vjp/multi_scope-off')
+  where = json.dumps(case)
+  if not case['multi_scope']:
+    # documented: several scopes need multi_scope=True
+    if li != ('err', 'Exception:NotImplementedError'):
+      ctx.violation('vjp-multiscope-flag', f'nn.vjp(multi_scope=False) on a module holding another module: {li if li[0] == "err" else "ok"} (NotImplementedError is documented) on {where}', case)
+    return
+  if li[0] != ref[0] or (li[0] == 'err' and li[1] != ref[1]):
+    ctx.violation('vjp-multiscope-outcome', f'nn.vjp over two scopes: {li if li[0] == "err" else "ok"} vs jax.vjp of apply: {ref if ref[0] == "err" else "ok"} on {where}', case)
+    return
+  if li[0] == 'err':
+    return
+  (y, gv, gx), upd = li[1]
+  ry, rgv, rgx, rupd = ref[1]
+  # per-scope cotangents, order: attribute scope (`other`) first, then the module's own scope (`pair`)
+  got = [{c: {n: to_int(v) for n, v in d.items()} for c, d in scope_g.items()} for scope_g in gv]
+  want = [{c: {n: to_int(v) for n, v in rgv[c][name].items()} for c in rgv if name in rgv[c]} for name in ('other', 'pair')]
+  obs = (to_int(y), got, to_int(gx), jax.tree.map(to_int, dict(upd)))
+  exp = (to_int(ry), want, to_int(rgx), jax.tree.map(to_int, dict(rupd)))
+  names = ('primal output', 'variable cotangents per scope', 'input cotangent', 'published collections')
+  for nm, a, b in zip(names, obs, exp):
+    if a != b:
+      ctx.violation('vjp-multiscope-differs', f'nn.vjp over two scopes: {nm} {a} vs jax.vjp of module.apply {b} on {where}', case)
+      return
+
+
+def gen_multiscope_case(rng):
+  return {'kind': 'multiscope', 'k': rng.randrange(1, 3), 'ct': rng.randrange(-2, 4), 'w': rng.randrange(-2, 4), 'v': rng.randrange(-2, 4),
+          'c': rng.randrange(-2, 4), 'n': rng.randrange(0, 3), 'x': rng.randrange(-2, 4),
+          'vjp_variables': rng.choice(['params', 'params', ['params', 'consts'], 'consts', True]),
+          'mutable': rng.choice([False, ['stats'], 'stats']), 'multi_scope': rng.random() < 0.85}
+
+
+# ------------------------------------------------------------------------------------------------
+# finding F34: nn.jvp rejects a plain-dict tangent for a differentiated collection that `variables` does not match
+# ------------------------------------------------------------------------------------------------
+
+
+def f34_probe(ctx):
+  """`_partial_pack` freezes in-only groups, so a collection selected by `variable_tangents` but not matched by
+  `variables` reaches jax.jvp as a FrozenDict; the user's plain-dict tangent (accepted by jax.jvp of module.apply) is
+  rejected with a tree-structure TypeError."""
+  def fy(mdl, x):
+    return mdl.get_variable('stats', 'a') * x
+
+  vs = {'stats': {'a': F(3)}, 'params': {'w': F(1)}}
+  vt = {'stats': {'a': F(2)}}
+  L = make_cls('F34L', lambda self, x: nn.jvp(fy, self, (x,), (F(1),), vt, variables=['params']))
+  P = make_cls('F34P', lambda self, x: fy(self, x))
+  li = lp.call(lambda: [to_int(v) for v in L().apply(vs, F(5))])
+  ref = lp.call(lambda: [to_int(v) for v in jax.jvp(lambda sel, x: P().apply({**vs, **sel}, x), ({'stats': vs['stats']}, F(5)), (vt, F(1)))])
+  case = {'kind': 'f34-probe', 'lifted': li, 'reference': ref}
+  ctx.case({'kind': 'f34-probe'})
+  ctx.count('f34_probe', 'differs' if li != ref else 'equal')
+  if li != ref:
+    from harness.common import load_findings
+
+    what = f'nn.jvp with variable_tangents={{"stats": …}} (plain dict) and variables=["params"]: {li} vs jax.jvp of module.apply {ref}'
+    if any(e.get('key') == 'jvp-in-only-collection-frozen-container' and e.get('status') == 'finding' for e in load_findings(ctx.prop)):
+      ctx.violation('jvp-in-only-collection-frozen-container', what, case)
+    else:
+      ctx.notes.append('unregistered finding jvp-in-only-collection-frozen-container: ' + what)
+      ctx.extra.setdefault('unregistered_findings', []).append('jvp-in-only-collection-frozen-container')
+
+
+# ------------------------------------------------------------------------------------------------
 # generator
 # ------------------------------------------------------------------------------------------------
 
@@ -712,6 +843,8 @@ def run_case(ctx, drv, case):
     check_case(ctx, drv, case)
     if case['kind'] == 'custom' and case.get('under_grad'):
       check_custom_under_grad(ctx, case)
+  elif case.get('kind') == 'multiscope':
+    check_multiscope_case(ctx, case)
   else:
     ctx.notes.append(f'unknown corpus case kind {case.get("kind")}')
 
@@ -725,7 +858,7 @@ def run(ctx):
     run_case(ctx, drv, obj.get('case', obj))
   scale = 12 if thorough else 1
   plan = [('vjp', 110), ('jvp', 70), ('vag', 40), ('grad', 30), ('custom', 30)]
-  cases = []
+  cases = [gen_multiscope_case(rng) for _ in range(14 * scale)]
   for kind, n in plan:
     for _ in range(n * scale):
       c = gen_case(rng, kind)
@@ -739,6 +872,7 @@ def run(ctx):
     if not thorough and ctx.elapsed() > 75:
       ctx.notes.append('time budget reached, remaining generated cases skipped')
       break
+  f34_probe(ctx)
   for k in ('vjp', 'jvp', 'vag', 'custom'):
     for c in cases:
       if c['kind'] == k:
